@@ -59,7 +59,7 @@ def run(shard):
     import sym
     import gen_src
     cdm = H.import_repo()
-    from code_data import _code_data
+    _code_data = H.lib("_code_data")
     CodeData = cdm.CodeData
     state = {"case": None}
     stats = {}
@@ -103,6 +103,26 @@ def run(shard):
             H.sample({"id": id_})
     for k2, v2 in stats.items():
         H.count("static:" + k2, v2)
+
+    # ---- A': the same transformation with little interpreter stack left (shard 0 of each interpreter)
+    if shard.get("shard", 0) == 0 and not shard.get("replay_only"):
+        import stress
+        import sym
+        items = []
+        for depth in (12, 60, 150):
+            for pn, pair in (("int-bool", (1, True)), ("zero-sign", (0.0, -0.0)), ("int-float", (2, 2.0))):
+                try:
+                    items.append(({"k": "starved", "id": "starved:nested-%d:%s" % (depth, pn), "depth": depth, "pair": pn}, stress.nested_twin_code(depth, pair)))
+                except Exception as e:
+                    H.count("skipped:starved_build:" + type(e).__name__)
+
+        def fn(code):
+            return CodeData.from_code(code).normalize().to_code()
+
+        def same(a, b):
+            d = H.strict_diff(a, b, nan_ident=True)
+            return H.short(d[:3], 400) if d else None
+        stress.starved("C05", items, fn, same, "from_code(c).normalize().to_code()")
 
     # ---- B: behavioural
     nexec, nshards, me = shard.get("nexec", 0), shard.get("nshards", 1), shard.get("shard", 0)
@@ -189,6 +209,8 @@ def replay_shard(v):
     s = {"interp": v["interp"], "label": "replay", "tier": "quick", "seed": 0, "cases": [], "nexec": 0}
     if c.get("k") == "exec":
         s["exec_cases"] = [{"id": c["id"], "text": c["text"], "opt": c.get("opt", 0)}]
+    elif c.get("k") == "starved":
+        s["shard"] = 0      # the starved sweep runs in shard 0
     else:
         s["cases"] = [c]
     return s
